@@ -37,6 +37,13 @@ type Params struct {
 	// Pauses[i]: (virtual) time the consumer lets pass before its i-th call (a consumer slower than
 	// the source: items arrive before anybody asks for them).
 	Pauses []time.Duration
+	// SumFull: BatchFunc with a full() that looks at the CONTENT: a batch is full when the sum of
+	// its items is a multiple of SumFull (which the empty batch's sum is, too)
+	SumFull int
+	// MaxWait overrides the 10 ms default (0 = default)
+	MaxWait time.Duration
+	// StopAfterList: once the last call of the Timeouts list has given up, the consumer closes
+	StopAfterList bool
 }
 
 func (p Params) Name() string {
@@ -55,7 +62,14 @@ func (p Params) Name() string {
 			s += "v"
 		}
 	}
-	return fmt.Sprintf("batch/src=%s/size=%d/func=%v/timeouts=%v/pauses=%v/closeAfter=%d/extClose=%v/timerMode=%d", s, p.Size, p.Func, p.Timeouts, p.Pauses, p.CloseAfter, p.ExternalClose, p.Mode)
+	n := fmt.Sprintf("batch/src=%s/size=%d/func=%v/timeouts=%v/pauses=%v/closeAfter=%d/extClose=%v/timerMode=%d", s, p.Size, p.Func, p.Timeouts, p.Pauses, p.CloseAfter, p.ExternalClose, p.Mode)
+	if p.SumFull > 0 {
+		n += fmt.Sprintf("/full=sum-multiple-of-%d", p.SumFull)
+	}
+	if p.MaxWait > 0 {
+		n += fmt.Sprintf("/maxWait=%v", p.MaxWait)
+	}
+	return n
 }
 
 func (p Params) Body() func() {
@@ -73,8 +87,20 @@ func (p Params) Body() func() {
 				items = append(items, st.Val)
 			}
 		}
+		maxWait := maxWait
+		if p.MaxWait > 0 {
+			maxWait = p.MaxWait
+		}
 		var b stream.Stream[[]int]
-		if p.Func {
+		if p.SumFull > 0 {
+			b = stream.BatchFunc[int](src, maxWait, func(batch []int) bool {
+				sum := 0
+				for _, x := range batch {
+					sum += x
+				}
+				return sum%p.SumFull == 0
+			})
+		} else if p.Func {
 			b = stream.BatchFunc[int](src, maxWait, func(batch []int) bool { hx.Yield(); return len(batch) >= p.Size })
 		} else {
 			b = stream.Batch[int](src, maxWait, p.Size)
@@ -98,15 +124,25 @@ func (p Params) Body() func() {
 			if len(batch) == 0 {
 				hx.Fail("empty-batch", "an empty batch was delivered")
 			}
-			if len(batch) > p.Size {
+			if len(batch) > p.Size && p.SumFull == 0 {
 				hx.Fail("batch-too-large", "batch %v holds more than batchSize=%d items", batch, p.Size)
 			}
 			// an underfilled batch handed out before the source has ended: its oldest item has
 			// waited at least maxWait
 			hx.Atomically(func() {
-				if len(batch) < p.Size && src.EndedAt < 0 {
+				under := len(batch) < p.Size
+				if p.SumFull > 0 {
+					sum := 0
+					for _, x := range batch {
+						sum += x
+					}
+					under = sum%p.SumFull != 0
+				}
+				if under && src.EndedAt < 0 {
 					oldest := src.HandedAt[delivered]
-					if hx.Now()-oldest < maxWait {
+					// (a virtual clock that has run into the end of its range has saturated: elapsed
+					// times can no longer be computed from it)
+					if hx.Now() != time.Duration(1<<63-1) && hx.Now()-oldest < maxWait {
 						hx.Fail("underfilled-batch-too-early", "batch %v (batchSize %d) was handed out %v after its oldest item left the source, before maxWait=%v and before the source ended", batch, p.Size, hx.Now()-oldest, maxWait)
 					}
 				}
@@ -153,6 +189,9 @@ func (p Params) Body() func() {
 				batch, err := b.Next(ctx)
 				cancel()
 				if err != nil && !live && err == context.DeadlineExceeded {
+					if p.StopAfterList && len(timeouts) == 0 {
+						break
+					}
 					continue // a Next that gives up costs nothing: ask again
 				}
 				if err != nil {
@@ -241,6 +280,17 @@ func All() []Params {
 		{Script: []sx.Step{v(0), v(1), e}, Size: 2, CloseAfter: -1},
 		{Script: []sx.Step{e}, Size: 1, CloseAfter: -1},
 		{Script: []sx.Step{v(0), vd(1, 15*ms), e}, Size: 3, CloseAfter: -1},
+		// a full() that is true for the empty batch: still no empty batch is ever handed out
+		{Script: []sx.Step{v(1), v(1), v(2), blk}, Size: 9, SumFull: 2, CloseAfter: 1},
+		{Script: []sx.Step{v(1), vd(1, 15*ms), blk}, Size: 9, SumFull: 2, Timeouts: []time.Duration{5 * ms, 0}, CloseAfter: 2},
+		// a Next that gives up, one that is served at once by a full batch, then one for which only an
+		// underfilled batch is pending: it is handed over after maxWait, not held back
+		{Script: []sx.Step{vd(0, 12*ms), v(1), v(2), blk}, Size: 2, Timeouts: []time.Duration{5 * ms, 0, 0}, CloseAfter: 2},
+		{Script: []sx.Step{vd(0, 12*ms), v(1), vd(2, 1*ms), blk}, Size: 2, Timeouts: []time.Duration{5 * ms, 0, 0}, CloseAfter: 2, Mode: 1},
+		// the largest maxWait there is: an underfilled batch is still not handed out early
+		// (the consumer is waiting when item 2 arrives and gives up 5 ms later: nothing may have been handed out)
+		{Script: []sx.Step{v(0), v(1), vd(2, 3*ms), blk}, Size: 2, MaxWait: time.Duration(1<<63 - 1 - 300000), Timeouts: []time.Duration{0, 8 * ms}, StopAfterList: true, CloseAfter: -1},
+		{Script: []sx.Step{vd(0, 3*ms), blk}, Size: 2, MaxWait: time.Duration(1<<63 - 1), Timeouts: []time.Duration{8 * ms}, StopAfterList: true, CloseAfter: -1, Mode: 1},
 		// the source's own error is context.Canceled (not a cancellation of the library's making)
 		{Script: []sx.Step{v(0), {Err: context.Canceled}}, Size: 2, CloseAfter: -1},
 		// a full batch, then an underfilled one flushed by the timer, then more: batches handed out
